@@ -99,3 +99,28 @@ Proof.
     assert (0 < - Sxy Rops V) by lra. lra.
   - assert (K : Sxy Rops V = sgnT Rops (Sa Rops V) * Sxy Rops V) by lra. lra.
 Qed.
+
+(* ---- a polygon's shoelace sums are the sums over its fan triangles (chords cancel) ---- *)
+Require Import Cox.Thm.CycleSplit.
+Definition tSx (e : vec3 R * vec3 R) : R := sh Rops e * quad2 Rops (vy (fst e)) (vy (snd e)).
+Definition tSy (e : vec3 R * vec3 R) : R := sh Rops e * quad2 Rops (vx (fst e)) (vx (snd e)).
+Definition tSxy (e : vec3 R * vec3 R) : R :=
+  sh Rops e * (vx (fst e) * vy (snd e) + 2 * (vx (fst e) * vy (fst e) + vx (snd e) * vy (snd e)) + vx (snd e) * vy (fst e)).
+Ltac anti_tac := intros [[a1 a2] a3] [[b1 b2] b3]; unfold tSx, tSy, tSxy, sh, quad2, pcross, xy, px, py, vx, vy;
+                 cbn [oadd omul osub fst snd Rops]; ring.
+Lemma sh_anti : forall a b, sh Rops (b, a) = - sh Rops (a, b).   Proof. anti_tac. Qed.
+Lemma tSx_anti : forall a b, tSx (b, a) = - tSx (a, b).           Proof. anti_tac. Qed.
+Lemma tSy_anti : forall a b, tSy (b, a) = - tSy (a, b).           Proof. anti_tac. Qed.
+Lemma tSxy_anti : forall a b, tSxy (b, a) = - tSxy (a, b).        Proof. anti_tac. Qed.
+
+Theorem shoelace_sums_are_fan_sums a b l :
+  Sa Rops (a :: b :: l) = fan (sh Rops) a b l /\ Sx Rops (a :: b :: l) = fan tSx a b l
+  /\ Sy Rops (a :: b :: l) = fan tSy a b l /\ Sxy Rops (a :: b :: l) = fan tSxy a b l.
+Proof.
+  repeat split.
+  - rewrite <- (cycle_is_fan _ sh_anti). reflexivity.
+  - rewrite <- (cycle_is_fan _ tSx_anti). reflexivity.
+  - rewrite <- (cycle_is_fan _ tSy_anti). reflexivity.
+  - rewrite <- (cycle_is_fan _ tSxy_anti). unfold Sxy, sum_e, cyc. rewrite osum_Rsum. apply Rsum_map_ext.
+    intros e _. unfold tSxy. cbn [oadd omul ofromZ Rops]. reflexivity.
+Qed.
